@@ -106,8 +106,12 @@ SnapViol(ev) ==
         \* ---- held edges: C01, C02/C03 (evaluation = denotation), C11 (counts) ----
         E  == ev.edges
         ok(x) == Has(E[x], "fn") /\ \A i \in 1..Len(E[x].fn) : E[x].fn[i] # OffGrid
-        canon == IF \E x, y \in 1..Len(E) : x < y /\ ok(x) /\ ok(y)
-                        /\ ((E[x].n = E[y].n /\ E[x].ev = E[y].ev /\ E[x].tv = E[y].tv) # (E[x].fn = E[y].fn))
+        hasfn(x) == Has(E[x], "fn") /\ Has(E[x], "fh")
+        samefn(x, y) == IF ok(x) /\ ok(y) THEN E[x].fn = E[y].fn ELSE E[x].fh = E[y].fh
+        \* (an edge value recorded as OffGrid cannot serve as identity)
+        idok(x) == E[x].ev # OffGrid /\ E[x].tv # OffGrid
+        canon == IF \E x, y \in 1..Len(E) : x < y /\ hasfn(x) /\ hasfn(y) /\ idok(x) /\ idok(y)
+                        /\ ((E[x].n = E[y].n /\ E[x].ev = E[y].ev /\ E[x].tv = E[y].tv) # samefn(x, y))
                  THEN {V("C01", "identity-vs-function")} ELSE {}
         den(x) == DenoteRoot(N, kind, ds, E[x].n, E[x].ev, E[x].tv)
         rootok(x) == E[x].n <= 0 \/ E[x].n \in DOMAIN N
